@@ -265,14 +265,15 @@ PROPS.update({
                     'CompressorProvider compared with the model; histories vs fresh containers.',
     ),
     'C19': dict(
-        domains=[dict(name='disp', quick=6000, thorough=150000), dict(name='cors', quick=12000, thorough=200000)],
+        domains=[dict(name='disp', quick=6000, thorough=150000), dict(name='cors', quick=12000, thorough=200000),
+                 dict(name='neg', quick=6000, thorough=100000), dict(name='route', quick=8000, thorough=200000)],
         race_domains=[dict(name='disp', quick=480, thorough=12000, args=['-force-conc'])],
         verdicts=['c19_*'],
-        project={'disp': proj_disp_all, 'cors': proj_cors},
+        project={'disp': proj_disp_all, 'cors': proj_cors, 'neg': proj_neg, 'route': proj_route_c02},
         prop_files=['props/C19.v'],
         trivial_classes=('empty',),
         rule=RULE_DISP, trusted_base=TB_DISP,
-        assumptions=['trace logging is not varied by this domain yet'],
+        assumptions=[],
         explanation='Theorems Props.C19_pool_invariant / C19_events; every request of a history answered identically (status, '
                     'headers, decoded body, events incl. parameters / attributes / selected route seen by the handler) in the '
                     'sequential history, alone on a fresh container, and inside a concurrent batch; all three equal the model.',
@@ -306,10 +307,10 @@ PROPS.update({
 })
 PROPS.update({
     'C13': dict(
-        domains=[dict(name='pool', quick=600, thorough=20000)],
+        domains=[dict(name='pool', quick=600, thorough=20000), dict(name='disp', quick=2400, thorough=60000)],
         race_domains=[dict(name='pool', quick=64, thorough=3000, args=['-force-conc'])],
         verdicts=['c13_*'],
-        project={'pool': proj_allow},
+        project={'pool': proj_allow, 'disp': proj_disp_c10},
         prop_files=['props/C13.v'],
         gen_files=['gen/Generated_Pool.v'], gen_props=['genprops/C13_generated.v'],
         trivial_classes=(),
